@@ -590,6 +590,13 @@ def judge(c, R, V, W, ref_bits, findings, methods):
     full_R = R["st"] == "ok" and len(R["samples"]) == n
     if V["st"] == "ok" and full_R and R["samples"] == V["samples"]:
         return ("ok", "rust_eq_vm")
+    if R["st"] == "run" and "F21" in findings and uses_missing_builtin(c["src"]):
+        m = re.search(r"unexpected external call: (\w+)", R["msg"])
+        if m and m.group(1) in F21_BUILTINS and V["st"] in ("ok", "panic") and R["samples"] == V["samples"][:len(R["samples"])]:
+            return ("known", "F21", src1 + " -> " + R["msg"][:100])
+    if "F22" in findings and handle_like_bits(c) and R["st"] == "ok" and V["st"] == "ok":
+        return ("known", "F22", src1 + " with input bits %s -> rust %s, vm %s" % (
+            c["input_bits"][0], show(R["samples"][0] if R["samples"] else None), show(V["samples"][0] if V["samples"] else None)))
     # some difference: describe it
     if V["st"] in ("ok", "panic") and (R["samples"] != V["samples"][:len(R["samples"])] or (R["st"] == "ok" and V["st"] == "ok")):
         d = first_diff(R["samples"], V["samples"])
@@ -615,6 +622,120 @@ def judge(c, R, V, W, ref_bits, findings, methods):
     if V["st"] == "absent":
         return ("ok", "vm_not_run")
     return fail(why, rust_first=R["samples"][:6], vm_first=V["samples"][:6])
+
+
+# ---------------------------------------------------------------------------------------------------------
+# classes confirmed by a semantics-preserving rewrite: a failure belongs to the class iff the program has the construct
+# AND the failure disappears (generated Rust == VM at every sample) once exactly that construct is rewritten away
+# ---------------------------------------------------------------------------------------------------------
+def projection_spans(src):
+    """maximal field projections  base(.N | .name)+  with base = identifier or call  f(...): list of (start, end)"""
+    spans = []
+    for m in re.finditer(r"\.(\d+|[A-Za-z_]\w*)\b", src):
+        dot = m.start()
+        if dot == 0:
+            continue
+        prev = src[dot - 1]
+        if prev == ")":
+            depth, j = 0, dot - 1
+            while j >= 0:
+                if src[j] == ")":
+                    depth += 1
+                elif src[j] == "(":
+                    depth -= 1
+                    if depth == 0:
+                        break
+                j -= 1
+            k = j
+            while k > 0 and (src[k - 1].isalnum() or src[k - 1] == "_"):
+                k -= 1
+            if k == j:          # a parenthesised expression, not a call: leave it alone
+                continue
+            start = k
+        elif prev.isalnum() or prev == "_":
+            k = dot
+            while k > 0 and (src[k - 1].isalnum() or src[k - 1] in "_."):
+                k -= 1
+            start = k
+            base = src[start:dot]
+            if not re.match(r"[A-Za-z_]", base):     # a numeric literal such as 10.0
+                continue
+        else:
+            continue
+        same = [k for k, sp in enumerate(spans) if sp[0] == start]
+        if same:                                      # chain a.b.c: extend
+            spans[same[-1]] = (start, m.end())
+        else:
+            spans.append((start, m.end()))
+    return spans
+
+
+def has_projection_operand(src):
+    """syntactic part of class F24: a tuple/record field projection written directly as the input of mem/delay, as a delay time,
+    as an array index or as the value of an `if`/`match` arm"""
+    for a, b in projection_spans(src):
+        before, after = src[:a].rstrip(), src[b:].lstrip()
+        if before.endswith("mem(") and after.startswith(")"):
+            return True
+        if before.endswith("[") and after.startswith("]"):
+            return True
+        if before.endswith("{") and after.startswith("}"):
+            return True
+        if before.endswith("=>"):
+            return True
+        if before.endswith(",") and (after.startswith(",") or after.startswith(")")) and "delay(" in before:
+            return True
+    return False
+
+
+def rw_projections(src):
+    """P -> (P * 1.0) for every projection P: the value goes through MulF (bit-exact identity on f64) instead of being used as an
+    operand directly"""
+    ins = []
+    for a, b in projection_spans(src):
+        ins.append((a, 1, "("))
+        ins.append((b, 0, " * 1.0)"))
+    for pos, _, txt in sorted(ins, reverse=True):      # spans are nested or disjoint: insert from the right
+        src = src[:pos] + txt + src[pos:]
+    return src
+
+
+def rw_if_conditions(src):
+    """if (C) -> if ((C) > 0.0): identical on both backends unless C is NaN (then: else-arm everywhere)"""
+    starts = [m.start() for m in re.finditer(r"\bif\s*\(", src)]
+    for st in reversed(starts):
+        a = src.index("(", st)
+        depth, j = 0, a
+        while j < len(src):
+            if src[j] == "(":
+                depth += 1
+            elif src[j] == ")":
+                depth -= 1
+                if depth == 0:
+                    break
+            j += 1
+        if j >= len(src):
+            continue
+        src = src[:a] + "((" + src[a + 1:j] + ") > 0.0)" + src[j + 1:]
+    return src
+
+
+def handle_like_bits(case):
+    """class predicate of finding F22: a dsp input whose bit pattern decodes as a live MemoryStore handle
+    (bit 61 set, bits 63/62 clear, small index)"""
+    for row in case.get("input_bits") or []:
+        for h in row:
+            w = int(h, 16)
+            if w >> 61 == 1 and (w & ((1 << 61) - 1)) < (1 << 32):
+                return True
+    return False
+
+
+REWRITE_CLASSES = [
+    # (finding id, syntactic predicate, rewrite)
+    ("F24", has_projection_operand, rw_projections),
+    ("F23", lambda src: bool(re.search(r"\bif\s*\(", src)), rw_if_conditions),
+]
 
 
 # ---------------------------------------------------------------------------------------------------------
@@ -752,7 +873,8 @@ def run(ck):
     shutil.rmtree(SCRATCH, ignore_errors=True)
     os.makedirs(SCRATCH, exist_ok=True)
     quick = ck.tier == "quick"
-    n_gen, n_samples = (700, 16) if quick else (9000, 48)
+    n_gen, n_samples = (600, 16) if quick else (8000, 48)
+    n_x = 500 if quick else 8000
     findings = {f["id"]: f for f in known_findings("C18")}
     methods = scaffold_methods()
 
@@ -765,7 +887,8 @@ def run(ck):
             c["input_bits"] = rp["input_bits"]
         cases.append(c)
     fixtures = fixture_cases()
-    cases += fixtures + corpus_cases() + name_cases(ck, quick) + probe_cases() + lmmm_cases(ck, n_gen, n_samples)
+    cases += (fixtures + corpus_cases() + name_cases(ck, quick) + probe_cases() + lmmm_cases(ck, n_gen, n_samples)
+              + xgen_cases(ck, n_x, 12 if quick else 32))
 
     ast_idx = [i for i, c in enumerate(cases) if c["prog"] is not None]
     mres = {}
@@ -822,6 +945,60 @@ def run(ck):
         else:
             viol.append((verdict[1], i, verdict[2]))
 
+    # ---- failures outside the syntactic classes: do they belong to a class confirmed by rewriting? ----
+    if viol:
+        cand = []   # (violation case index, ids rewritten, rewritten case)
+        for what, i, det in viol:
+            c = cases[i]
+            if c["kind"] == "probe":
+                continue
+            ids = [fid for fid, pred, rw in REWRITE_CLASSES if fid in findings and pred(c["src"])]
+            subsets = [[fid] for fid in ids] + ([ids] if len(ids) > 1 else [])
+            for sub in subsets:
+                src2 = c["src"]
+                for fid, pred, rw in REWRITE_CLASSES:
+                    if fid in sub:
+                        src2 = rw(src2)
+                cand.append((i, sub, dict(c, src=src2, prog=None, cls=set())))
+        cleared = {}
+        if cand:
+            cs = [x[2] for x in cand]
+            rr = run_impl(rexe, rust_requests(cs), shards=NPROC)
+            vv = run_impl(vexe, vm_requests(cs))
+            for (i, sub, c2), a, b in zip(cand, rr, vv):
+                R2 = rust_status(a)
+                V2 = backend_status((b or {}).get("vm")) if b and 'crash' not in b else {"st": "panic", "samples": [], "msg": ""}
+                if R2["st"] == "ok" and V2["st"] == "ok" and len(R2["samples"]) == c2["n"] and R2["samples"] == V2["samples"]:
+                    if i not in cleared or len(sub) < len(cleared[i]):
+                        cleared[i] = sub
+        keep = []
+        for what, i, det in viol:
+            if i in cleared:
+                for fid in cleared[i]:
+                    ck.known(findings[fid], cases[i]["src"].replace("\n", " ")[:150] + " -> " + what[:140])
+                    bump("known_" + fid)
+                bump("%s:known_by_rewrite" % cases[i]["kind"])
+                stats["%s:viol" % cases[i]["kind"]] -= 1
+            else:
+                keep.append((what, i, det))
+        viol = keep
+    # ---- shrink the first violations (same failure signature) ----
+    shrunk = {}
+    for what, i, det in viol[:2]:
+        c = cases[i]
+        if c["kind"] in ("fixture", "probe") or c["path"]:
+            continue
+        R = rust_status(rres[i])
+        V = backend_status((vres[i] or {}).get("vm")) if vres[i] and 'crash' not in vres[i] else {"st": "panic", "samples": [], "msg": ""}
+        sig = failure_signature(R, V)
+        if sig:
+            try:
+                small, rounds = shrink(c, sig, rexe, vexe, budget_s=45 if quick else 120)
+                if rounds:
+                    shrunk[i] = small
+            except Exception as ex:   # shrinking is best effort
+                log("shrink failed: %s" % ex)
+
     ck.coverage["evaluations"] = len(cases)
     ck.coverage["distinct_nontrivial"] = len(distinct)
     ck.coverage["samples_per_generated_program"] = n_samples
@@ -840,7 +1017,7 @@ def run(ck):
         c = cases[i]
         ck.violation(what, {"source": c["src"], "n_samples": c["n"], "inputs": c["inputs"], "input_bits": c.get("input_bits"),
                             "plugins": c["plugins"], "path": c["path"], "kind": c["kind"], "name": c["name"],
-                            "classes": sorted(c["cls"]), **det,
+                            "classes": sorted(c["cls"]), **det, **({"shrunk_source": shrunk[i]} if i in shrunk else {}),
                             "how": "./check C18 --replay <this file>  (or: echo '{\"src\":<source>,\"n\":N,\"keep\":true}' | "
                                    ".cache/target/lang/debug/rustgen_run ; same request to lmmm_run for the VM)"})
     if len(viol) > 6:
